@@ -101,7 +101,7 @@ func (rs *reqServer) exchange(sym *reqSym, frame []byte) (seen []reqRec, answere
 		c.Close()
 		return nil, false, false, 0, err
 	}
-	m, rerr := c.Recv(slowBudget.Timeout())
+	m, rerr := recvPatient(c, slowBudget.Timeout())
 	switch {
 	case rerr == nil:
 		answered, respID = true, m.ID
